@@ -15,7 +15,7 @@ from ..vloop import VLoop
 THEOREMS = ["C20_wait_ends_cleanly", "C20_invariant_everywhere", "C20_wait_timer_ends", "C20_duplicate_match_is_noop",
             "C20_old_timeout_refuted", "C20_now_timeout_clean", "C20_no_loop_exceptions", "C20_old_repeat_refuted",
             "C20_phases_exclusive", "C20_offer_is_not_confirm", "C20_abandon_leaves_no_timer", "C20_abandon_ends_binding",
-            "C20_retry_is_fresh", "C20_wrong_abandon_order_refuted", "C20_right_abandon_order_witness", "C20_early_match_not_lost"]
+            "C20_retry_is_fresh", "C20_wrong_abandon_order_refuted", "C20_right_abandon_order_witness", "C20_early_match_not_lost", "C20_waits_as_stated"]
 
 PRELUDE = ("From Coq Require Import List Bool Arith.\nFrom RV Require Import M_Bind.\nImport ListNotations.\n"
            "Set Printing Width 1000000.\nSet Printing Depth 1000000.\n"
@@ -558,6 +558,7 @@ def handshakes(ctx: Ctx, n: int) -> None:
                                 loop.call_soon(deliver, c, msg)
                     if plan.get("late_return") and phase in plan["late_return"]:
                         await asyncio.sleep(plan["late_by"])
+                    out.setdefault("sent_at", {}).setdefault((self.id, phase), loop.time())     # the first time this end's send of that frame returned
                     return pkt
 
             r_dev, s_dev = D("01:111111"), D("07:222222")
@@ -569,19 +570,25 @@ def handshakes(ctx: Ctx, n: int) -> None:
                     if tag == 1 and plan.get("solo") and plan["give_up"][0] != "resp":
                         return ("absent", None)
                     await asyncio.sleep(plan["resp_late"] if tag == 1 else (plan["late_2nd"][1] if plan.get("late_2nd", ("", 0))[0] == "resp" else 0))
+                    out.setdefault("began", {})[("resp", tag)] = loop.time()
                     try:
                         return ("ok", await ctxs[r_dev.id].wait_for_binding_request(["1260"]))
                     except Exception as err:  # noqa: BLE001
                         return ("exc", err)
+                    finally:
+                        out.setdefault("ended", {})[("resp", tag)] = loop.time()
 
                 async def supp():
                     if tag == 1 and plan.get("solo") and plan["give_up"][0] != "supp":
                         return ("absent", None)
                     await asyncio.sleep(0.2 if tag == 1 else (plan["late_2nd"][1] if plan.get("late_2nd", ("", 0))[0] == "supp" else 0.2))
+                    out.setdefault("began", {})[("supp", tag)] = loop.time()
                     try:
                         return ("ok", await ctxs[s_dev.id].initiate_binding_process(["1260"]))
                     except Exception as err:  # noqa: BLE001
                         return ("exc", err)
+                    finally:
+                        out.setdefault("ended", {})[("supp", tag)] = loop.time()
 
                 async def limited(role, coro):
                     gu = plan["give_up"]
@@ -650,6 +657,22 @@ def handshakes(ctx: Ctx, n: int) -> None:
                                   {**case, "respondent_tuple": [str(x) for x in rt[:3]], "supplicant_tuple": [str(x) for x in st[:3]]}, "schedule")
         if dur > 25:
             ctx.violation("attempt-not-bounded", "a binding attempt took longer than its stated waits allow", case, "schedule")
+        # the stated waits, first attempt: a respondent listens 5 s for an offer and, once its accept is sent, 3 s for the confirm; a supplicant waits
+        # 5 s for the accept once its offer is sent.  An end that FAILED (no caller gave up) has not waited longer than that.
+        sent, began, ended = out.get("sent_at", {}), out.get("began", {}), out.get("ended", {})
+        slack = 6 * G + (plan["late_by"] if plan.get("late_return") else 0)
+        if r[0] == "exc" and ("resp", 1) in ended and not (plan["give_up"] and plan["give_up"][0] == "resp"):
+            acc = sent.get(("01:111111", "accept"))
+            limit = (acc + 3.0) if acc is not None and not plan["fail_send"] == "accept" else (began[("resp", 1)] + 5.0 + plan["delay"])
+            if ended[("resp", 1)] > limit + slack:
+                ctx.violation("wait-longer-than-stated:respondent:" + ("confirm" if acc is not None else "offer"),
+                              "the respondent's attempt failed later than its stated wait allows (5 s for the offer; 3 s for the confirm once the accept is sent)",
+                              {**case, "accept_sent_at": acc, "began": began[("resp", 1)], "ended": ended[("resp", 1)], "limit": limit}, "schedule")
+        if s[0] == "exc" and ("supp", 1) in ended and not (plan["give_up"] and plan["give_up"][0] == "supp"):
+            off = sent.get(("07:222222", "offer"))
+            if off is not None and ended[("supp", 1)] > off + 5.0 + slack + 3.0 * (s[0] == "never"):
+                ctx.violation("wait-longer-than-stated:supplicant:accept", "the supplicant's attempt failed later than 5 s after its offer was sent",
+                              {**case, "offer_sent_at": off, "ended": ended[("supp", 1)]}, "schedule")
         if any(out["binding_at_end"].values()):
             ctx.violation("still-binding-when-attempt-ended", "an attempt ended (result, error or the caller gave up) and the device is still binding",
                           {**case, "binding": out["binding_at_end"]}, "schedule")
